@@ -8,6 +8,25 @@
 // the lifetime (quarantine) oracle and the deviation-bounded explorer.
 #pragma once
 #include <string>
+#include <cstring>
+#include <functional>
+#include <map>
+#include <mutex>
+#include <set>
+#include <sstream>
+#include <vector>
+// (harnesses must not depend on what the rkcommon headers happen to include: a change to the
+// library's include lists must not turn into a harness build failure)
+#include <algorithm>
+#include <array>
+#include <atomic>
+#include <chrono>
+#include <cmath>
+#include <condition_variable>
+#include <limits>
+#include <memory>
+#include <thread>
+#include <utility>
 
 extern "C" {
 // append a token to this execution's observable outcome (what the explorer counts as
